@@ -5,8 +5,12 @@ ID = 'C16'
 GENS = []
 TARGETS = ['BC.Props.C16']
 PROP_FILES = ['BC/Props/C16.lean']
+# source ties: function bodies regenerated from the Python source by translate/t_funcs.py, proved equal to the model functions
+SRC = {'module': 'BC.Props.C16Src', 'file': 'BC/Props/C16Src.lean',
+       'theorems': ['C16_src_begin_scan', 'C16_src_end_scan', 'C16_src_half']}
 THEOREMS = ['C16_out_of_range', 'C16_brackets', 'C16_inside_within_half', 'C16_bounds', 'C16_monotone_height']
 STATEMENTS = {
+    'C16_src_begin_scan': 'SOURCE TIE (all C16_src_*): half the target height and the two scan tests of danger_space, executed symbolically from the Python source on every run, are those of beginScan / endScan / dangerSpace; the scan shapes, fall-back rows, argument coercions, out-of-range guard and returned record are matched structurally by the translator',
     'C16_out_of_range': 'dangerSpace = none (ArithmeticError) iff every row is short of the requested range',
     'C16_brackets': 'target row = first row at/after the range; begin <= target <= end < n',
     'C16_inside_within_half': 'every row strictly between the bounds (other than the target row) has |drop - drop_target| < h/2',
